@@ -93,7 +93,8 @@ def cases(rng, tier, shard, nshards):
             valid = rng.random() < 0.5
             yield {"k": "header-add", "dt": dt, "start": rng.choice([0, 1, 2]), "value": rng.choice(goods if valid else bads),
                    "seed_values": goods, "valid": valid, "explicit": rng.random() < 0.6, "vlevel": rng.randrange(4),
-                   "connected": rng.random() < 0.5}
+                   "connected": rng.random() < 0.5, "validated_before": rng.random() < 0.5,
+                   "inplace": rng.choice([None, None, "insert-first", "insert-last"])}
         elif r < 0.62:
             # a new tag: assignments which are refused, then a valid value of another class
             yield {"k": "assign-seq", "line": rng.choice([f[0] for f in FIELDS if not f[0].startswith("#")]), "tag": V.tagname(rng),
@@ -183,6 +184,26 @@ def run_header_add(case, ctx):
     value = case["value"]
     if case["start"] == 0:
         case = dict(case, explicit=True)        # (a new tag: the datatype is the one given)
+    if case.get("validated_before") and case["start"] > 0:
+        # the header has been validated and written before (what these calls remember must not
+        # hide a later invalid value)
+        call(ctx, "validate (before)", h.validate)
+        call(ctx, "str (before)", str, h)
+        call(ctx, "validate_field (before)", h.validate_field, "xx")
+    if case.get("inplace") and case["start"] >= 2 and not case["valid"]:
+        # the value is put into the array of values in place (a list method of the FieldArray)
+        fa = h.get("xx")
+        pos = 0 if case["inplace"] == "insert-first" else len(list(fa))
+        ri = call(ctx, "FieldArray.insert", fa.insert, pos, value)
+        ctx.count("header_inplace_edits")
+        if not ri.ok:
+            return
+        cell_i = "header tag xx of datatype %s with %d values (level %d): %r inserted in place at %d" % (dt, case["start"], lvl, value, pos)
+        vl = call(ctx, "validate", h.validate)
+        vf = call(ctx, "validate_field", h.validate_field, "xx")
+        if vl.ok or vf.ok:
+            ctx.violation("invalid-value-passes-validation/header-inplace/%s/%s" % (dt, "validate" if vl.ok else "validate_field"), cell_i)
+        return
     cell = "header.add('xx', %r%s) after %d value(s) of datatype %s (level %d, %s)" % (
         value, ", %r" % dt if case["explicit"] else "", case["start"], dt, lvl, "Gfa header" if case["connected"] else "stand-alone H line")
     r = call(ctx, "header.add", (lambda: h.add("xx", value, dt)) if case["explicit"] else (lambda: h.add("xx", value)))
